@@ -48,7 +48,29 @@ REGISTRY = {
                                                                        "the run of rule_infos with l_idx == nt", {}),
 }
 
+# ---------------------------------------------------------------- the term / nterm interface read by the parser
+_TERM_API = {
+    "ctpg::term": {"get_precedence": "the precedence given to the constructor", "get_associativity": "the associativity "
+                   "given to the constructor"},
+    "ctpg::char_term": {"get_id": "the character as a string", "get_name": "same as the id", "get_data": "the character"},
+    "ctpg::string_term": {"get_id": "the string", "get_name": "same as the id", "get_data": "the string"},
+    "ctpg::regex_term": {"get_id": "r_<pattern>", "get_name": "the custom name when given, else the id",
+                         "get_data": "the pattern"},
+    "ctpg::custom_term": {"get_id": "the custom name", "get_name": "the custom name", "get_ftor": "the user's functor"},
+    "ctpg::typed_term": {"get_id": "the wrapped term's id", "get_name": "the wrapped term's name",
+                         "get_data": "the wrapped term's data", "get_precedence": "the wrapped term's precedence",
+                         "get_associativity": "the wrapped term's associativity", "get_ftor": "the user's functor"},
+    "ctpg::nterm": {"get_name": "the name given to the constructor"},
+}
+TERMAPI = []
+for _cls, _ms in _TERM_API.items():
+    for _m, _what in _ms.items():
+        _n = "api_%s_%s" % (_cls.split("::")[-1], _m)
+        REGISTRY[_n] = (_cls + "::" + _m, "%s::%s() is %s" % (_cls.split("::")[-1], _m, _what), {})
+        TERMAPI.append(_n)
+
 GROUPS = {
+    "TERMAPI": TERMAPI,
     "REGEXFE": ["regex_char", "hex_digits_to_char", "hex_digit_lambda", "string_view_to_subset", "char_subset_add_range",
                 "regex_lexer_match", "regex_lexer_match_primary", "regex_lexer_match_range", "regex_lexer_match_range_item",
                 "regex_lexer_match_escaped", "regex_lexer_recognized", "regex_lexer_ctor", "is_printable", "is_hex_digit",
